@@ -1081,6 +1081,19 @@ func corpusTexts() []string {
 		"0x" + strings.Repeat("2", 34), "0X" + strings.Repeat("3", 40), "0x" + strings.Repeat("4", 64), "0x" + strings.Repeat("5", 1000), strings.Repeat("6", 32), "0x", "0xzz", "0x" + strings.Repeat("g", 34)} {
 		out = append(out, "#EXTM3U\n#EXT-X-VERSION:7\n#EXT-X-TARGETDURATION:2\n#EXT-X-KEY:METHOD=AES-128,URI=\"k\",IV="+iv+"\n#EXTINF:2,\na.ts\n#EXT-X-ENDLIST\n")
 	}
+	// decimal-integer tags around every power of two a fixed-width parser may stop at
+	for _, n := range []string{"2147483647", "2147483648", "4294967295", "4294967296", "9223372036854775807", "9223372036854775808", "18446744073709551615", "18446744073709551616", "99999999999999999999999999"} {
+		for _, tag := range []string{"#EXT-X-MEDIA-SEQUENCE:", "#EXT-X-DISCONTINUITY-SEQUENCE:", "#EXT-X-TARGETDURATION:", "#EXT-X-VERSION:"} {
+			hdr := "#EXTM3U\n#EXT-X-VERSION:3\n#EXT-X-TARGETDURATION:2\n"
+			if tag == "#EXT-X-TARGETDURATION:" {
+				hdr = "#EXTM3U\n#EXT-X-VERSION:3\n"
+			}
+			if tag == "#EXT-X-VERSION:" {
+				hdr = "#EXTM3U\n#EXT-X-TARGETDURATION:2\n"
+			}
+			out = append(out, hdr+tag+n+"\n#EXTINF:2,\na.ts\n#EXT-X-ENDLIST\n")
+		}
+	}
 	dirs, _ := filepath.Glob("testdata/fuzz/*")
 	sort.Strings(dirs)
 	for _, d := range dirs {
@@ -1138,6 +1151,9 @@ func decodeOracle(text []byte) (sig, msg string, ok bool) {
 			}
 			if len(p.Segments) == 0 {
 				return "decoded-invalid/no-segments", "no segments"
+			}
+			if p.MediaSequence < 0 || p.DiscontinuitySequence != nil && *p.DiscontinuitySequence < 0 || p.TargetDuration < 0 || p.Version < 0 {
+				return "decoded-invalid/negative-number", fmt.Sprintf("a decimal-integer tag was decoded into a negative number (media sequence %d, target duration %d, version %d)", p.MediaSequence, p.TargetDuration, p.Version)
 			}
 			for i, s := range p.Segments {
 				if s.URI == "" {
